@@ -105,6 +105,8 @@ def mechanism_exercised(prop, c):
         return has(" ev inv ")
     if prop == "C09":
         return has(" ev notif ")
+    if prop == "C19":
+        return has(" ev inv ") or has(" api panic")
     if prop in ("C07", "C10"):
         return sum(1 for l in impl if " read " in l and "=ok " in l) >= 2
     if prop == "C11":
